@@ -66,7 +66,7 @@ structure WalSplit (s : State) (pre mid : List Segment) (S : Log) : Prop where
   pre_S : applyAll [] (segRecs pre) = S
   post_hot : applyAll [] (segRecs mid ++ curRecs s.walCur) = s.hot
   post_S : applyAll S (segRecs mid ++ curRecs s.walCur) = S ++ s.hot
-  S_snap : (s.phase = .begun ∨ s.phase = .written ∨ s.phase = .replaced) → S = s.snap
+  S_snap : (s.phase = .begun ∨ s.phase = .written ∨ s.phase = .replaced ∨ s.phase = .failed) → S = s.snap
   S_files : s.phase = .cleared →
     ∀ k t v, Log.get S k t = some v → Log.get (filesLog s.files) k t = some v
 
@@ -274,6 +274,7 @@ theorem walinv_stepDelete {s : State} (h : WalInv s) {ss : List Nat} {lo hi : In
     · rw [hs.S_snap (Or.inr (Or.inl hp))]; exact hc
     · rw [hp] at hl; cases hl
     · exact absurd hp hncl
+    · rw [hs.S_snap (Or.inr (Or.inr (Or.inr hp)))]; exact hc
   by_cases hk : (hotKeys s.hot ss).isEmpty = true
   · rw [stepDelete_eq_noKeys hk]
     refine ⟨h.ids, h.ids_lt, pre, mid, S, ?_⟩
@@ -339,7 +340,52 @@ theorem recs_walClose (s : State) (mid : List Segment) :
       simp only [rolls, hc, Bool.not_eq_false'] at h
       simp [curRecs, segRecs, List.isEmpty_iff.mp h]
 
-theorem walinv_stepSnapBegin {s : State} (hi : Inv s) (h : WalInv s) : WalInv (stepSnapBegin s).1 := by
+/-- a (fresh or retried) `Cache.Snapshot`: every closed segment now belongs to the snapshot -/
+def beginState (s : State) (snap' : Log) : State :=
+  { walCloseSegment s with snap := snap', hot := [], phase := .begun,
+                           snapClosed := walClosedIds (walCloseSegment s), lastRec := false }
+
+theorem walsplit_begin {s : State} {pre mid : List Segment} {S : Log} (hs : WalSplit s pre mid S) :
+    WalSplit (beginState s (S ++ s.hot)) (walCloseSegment s).walClosed [] (S ++ s.hot) := by
+  unfold beginState
+  have hrec := recs_walClose s mid
+  constructor
+  · simp
+  · intro _; rfl
+  · intro h'; cases h'
+  · show applyAll [] (segRecs (walCloseSegment s).walClosed) = S ++ s.hot
+    have hph := hs.post_S
+    simp only [walCloseSegment, hs.closed_eq]
+    by_cases hr : rolls s.walCur = true
+    · simp only [hr, if_true, segRecs_append, List.append_assoc, applyAll_append, hs.pre_S]
+      rw [← applyAll_append]
+      exact hph
+    · have hr' : rolls s.walCur = false := by simpa using hr
+      simp only [hr, Bool.false_eq_true, if_false, segRecs_append, applyAll_append, hs.pre_S]
+      rw [hrec.2 hr', List.append_nil] at hph
+      exact hph
+  · show applyAll [] (segRecs [] ++ curRecs (walCloseSegment s).walCur) = []
+    simp only [walCloseSegment]
+    by_cases hr : rolls s.walCur = true
+    · simp [hr, curRecs, segRecs, applyAll]
+    · have hr' : rolls s.walCur = false := by simpa using hr
+      simp [hr, hrec.2 hr', segRecs, applyAll]
+  · show applyAll (S ++ s.hot) (segRecs [] ++ curRecs (walCloseSegment s).walCur) = (S ++ s.hot) ++ []
+    simp only [walCloseSegment]
+    by_cases hr : rolls s.walCur = true
+    · simp [hr, curRecs, segRecs, applyAll]
+    · have hr' : rolls s.walCur = false := by simpa using hr
+      simp [hr, hrec.2 hr', segRecs, applyAll]
+  · intro _; rfl
+  · intro h'; cases h'
+
+/-- nothing has been written since the failed snapshot attempt that is being retried -/
+def RetryClean (s : State) : Prop := s.phase = .failed → s.hot = []
+
+instance (s : State) : Decidable (RetryClean s) := by unfold RetryClean; exact inferInstance
+
+theorem walinv_stepSnapBegin {s : State} (hi : Inv s) (h : WalInv s) (hrc : RetryClean s) :
+    WalInv (stepSnapBegin s).1 := by
   obtain ⟨pre, mid, S, hs⟩ := h.split
   have hid := ids_walClose h.ids h.ids_lt
   unfold stepSnapBegin
@@ -348,37 +394,18 @@ theorem walinv_stepSnapBegin {s : State} (hi : Inv s) (h : WalInv s) : WalInv (s
     simp only
     have hpre : pre = [] := hs.pre_idle hp
     have hS : S = [] := by rw [← hs.pre_S, hpre]; rfl
-    refine ⟨hid.1, hid.2, (walCloseSegment s).walClosed, [], s.hot, ?_⟩
-    have hrec := recs_walClose s mid
-    constructor
-    · simp
-    · intro _; rfl
-    · intro h'; cases h'
-    · -- the closed segments replay to the old hot store
-      show applyAll [] (segRecs (walCloseSegment s).walClosed) = s.hot
-      have hph := hs.post_hot
-      simp only [walCloseSegment, hs.closed_eq, hpre, List.nil_append] at hph ⊢
-      by_cases hr : rolls s.walCur = true
-      · simp only [hr, if_true, segRecs_append]
-        exact hph
-      · have hr' : rolls s.walCur = false := by simpa using hr
-        simp only [hr, Bool.false_eq_true, if_false]
-        rw [hrec.2 hr', List.append_nil] at hph
-        exact hph
-    · show applyAll [] (segRecs [] ++ curRecs (walCloseSegment s).walCur) = []
-      simp only [walCloseSegment]
-      by_cases hr : rolls s.walCur = true
-      · simp [hr, curRecs, segRecs, applyAll]
-      · have hr' : rolls s.walCur = false := by simpa using hr
-        simp [hr, hrec.2 hr', segRecs, applyAll]
-    · show applyAll s.hot (segRecs [] ++ curRecs (walCloseSegment s).walCur) = s.hot ++ []
-      simp only [walCloseSegment]
-      by_cases hr : rolls s.walCur = true
-      · simp [hr, curRecs, segRecs, applyAll]
-      · have hr' : rolls s.walCur = false := by simpa using hr
-        simp [hr, hrec.2 hr', segRecs, applyAll]
-    · intro _; rfl
-    · intro h'; cases h'
+    have := walsplit_begin hs
+    rw [hS, List.nil_append] at this
+    exact ⟨hid.1, hid.2, _, _, _, this⟩
+  rotate_left 4
+  · -- failed → begun (retry of the stale snapshot store): S = snap, and nothing is in the hot store
+    simp only
+    have hS : S = s.snap := hs.S_snap (Or.inr (Or.inr (Or.inr hp)))
+    have hh : s.hot = [] := hrc hp
+    have hsp := walsplit_begin hs
+    rw [hS, hh, List.append_nil] at hsp
+    have hw : WalInv (beginState s s.snap) := ⟨hid.1, hid.2, _, _, _, hsp⟩
+    exact hw.congr rfl rfl rfl rfl rfl (by simp [beginState, hh]) rfl rfl
   all_goals first
     | -- begun / written: only CloseSegment happens
       (simp only
@@ -467,7 +494,7 @@ theorem walinv_stepSnapStep {s : State} (hi : Inv s) (h : WalInv s) : WalInv (st
     exact ⟨h.ids, h.ids_lt, pre, mid, S, hs.closed_eq, fun _ => hs.pre_ids hne, (fun h' => by cases h'),
       hs.pre_S, hs.post_hot, hs.post_S, fun _ => hS, (fun h' => by cases h')⟩
   · -- replaced → cleared
-    have hS : S = s.snap := hs.S_snap (Or.inr (Or.inr hp))
+    have hS : S = s.snap := hs.S_snap (Or.inr (Or.inr (Or.inl hp)))
     have hne : s.phase ≠ .idle := by rw [hp]; intro h'; cases h'
     refine ⟨h.ids, h.ids_lt, pre, mid, S, hs.closed_eq, fun _ => hs.pre_ids hne, (fun h' => by cases h'),
       hs.pre_S, hs.post_hot, hs.post_S, (fun h' => by simp at h'), fun _ => ?_⟩
@@ -505,6 +532,43 @@ theorem walinv_stepSnapStep {s : State} (hi : Inv s) (h : WalInv s) : WalInv (st
         rw [hs.post_hot]; rfl
       · intro h'; simp at h'
       · intro h'; cases h'
+  · exact h
+
+theorem phase_stepSnapBegin {s : State} (hp : s.phase = .idle ∨ s.phase = .failed) :
+    (stepSnapBegin s).1.phase = .begun := by
+  unfold stepSnapBegin
+  rcases hp with hp | hp <;> rw [hp]
+
+theorem lastRec_stepSnapBegin' {s : State} (hp : s.phase = .idle ∨ s.phase = .failed) :
+    (stepSnapBegin s).1.lastRec = false := by
+  unfold stepSnapBegin
+  rcases hp with hp | hp <;> rw [hp]
+
+theorem walinv_stepSnapFail {s : State} (hi : Inv s) (h : WalInv s) (hrc : RetryClean s) :
+    WalInv (stepSnapFail s).1 := by
+  rcases stepSnapFail_cases s with he | ⟨he, hsn, hp⟩ | ⟨he, hp⟩
+  · rw [he]; exact h.congr rfl rfl rfl rfl rfl rfl rfl rfl
+  · -- the snapshot store is empty: as the `Size() == 0` sub-step
+    rw [he]
+    have hB := walinv_stepSnapBegin hi h hrc
+    have hiB := inv_stepSnapBegin hi
+    have hph := phase_stepSnapBegin hp
+    have hstep := walinv_stepSnapStep hiB hB
+    have hemp : (stepSnapBegin s).1.snap.isEmpty = true := by rw [hsn]; rfl
+    have heq : stepSnapStep (stepSnapBegin s).1 =
+        { (stepSnapBegin s).1 with phase := .idle, snapClosed := [], lastRec := false } := by
+      unfold stepSnapStep; rw [hph]; simp only [hemp, if_true]
+    rw [heq] at hstep
+    exact hstep.congr rfl rfl rfl rfl rfl rfl rfl rfl
+  · -- the attempt fails: the snapshot store and its closed segments stay as they are
+    rw [he]
+    have hB := walinv_stepSnapBegin hi h hrc
+    have hph := phase_stepSnapBegin hp
+    obtain ⟨pre, mid, S, hs⟩ := hB.split
+    have hne : (stepSnapBegin s).1.phase ≠ .idle := by rw [hph]; intro h'; cases h'
+    refine ⟨hB.ids, hB.ids_lt, pre, mid, S, ?_⟩
+    exact ⟨hs.closed_eq, fun _ => hs.pre_ids hne, (fun h' => by cases h'), hs.pre_S, hs.post_hot, hs.post_S,
+      fun _ => hs.S_snap (Or.inl hph), (fun h' => by cases h')⟩
 
 theorem walinv_advance1 {s : State} (hi : Inv s) (h : WalInv s) (n : Nat) : WalInv (advance1 n s) := by
   unfold advance1; split
@@ -574,7 +638,7 @@ theorem abs_openWith_same {s : State} (hi : Inv s) (h : WalInv s) (fs : List Tsm
     rw [hS0, hi.idle_snap hp]
   · rw [hs.S_snap (Or.inl hp)]
   · rw [hs.S_snap (Or.inr (Or.inl hp))]
-  · rw [hs.S_snap (Or.inr (Or.inr hp))]
+  · rw [hs.S_snap (Or.inr (Or.inr (Or.inl hp)))]
   · rw [hi.cleared_snap hp]
     simp only [Log.get_nil, Option.none_or]
     cases hh : Log.get s.hot k t with
@@ -584,5 +648,6 @@ theorem abs_openWith_same {s : State} (hi : Inv s) (h : WalInv s) (fs : List Tsm
       cases hS : Log.get S k t with
       | none => rfl
       | some v => simp [hs.S_files hp k t v hS]
+  · rw [hs.S_snap (Or.inr (Or.inr (Or.inr hp)))]
 
 end Influx.Model.Engine
